@@ -80,7 +80,7 @@ fn parse_req(s: &str) -> Option<c11::Req> {
 
 fn known_bops() -> Vec<BOp> {
     let mut v = crate::checks::c12::alphabet();
-    v.extend([BOp::Id, BOp::ExtInst, BOp::ExtInstExplicit(2), BOp::IAddExplicit(2), BOp::BeginBlockId(3), BOp::InsertRet(Ip::FromBegin1), BOp::InsertRet(Ip::FromEnd1)]);
+    v.extend([BOp::Reload, BOp::Id, BOp::ExtInst, BOp::ExtInstExplicit(2), BOp::IAddExplicit(2), BOp::BeginBlockId(3), BOp::InsertRet(Ip::FromBegin1), BOp::InsertRet(Ip::FromEnd1)]);
     for e in [None, Some(2u32), Some(40)] {
         for k in 0..4 {
             v.push(BOp::TypePointer(e, k));
